@@ -88,7 +88,7 @@ def run(ctx):
     if model is None:
         return dict(coverage=dict(evaluations=0, distinct_nontrivial=0, rule="model unavailable", samples=[]))
     stats = dict(windows=0, slices=0, indices=0, eager_windows=0)
-    fs = FileStream(ctx, model, ctx.n(400, 20000), max_n=4)
+    fs = FileStream(ctx, model, ctx.n(400, 14000), max_n=4)
     disagreements, violations, samples = [], [], []
     nontrivial = 0
     for i, segs, e, data, feats, new in fs:
